@@ -104,3 +104,21 @@ Example C16_extras :
   parse_key_paths [123; 43; 49; 125] = Ok [KIndex 1] /\
   parse_key_paths [123; 97; 92; 117; 48; 48; 52; 49; 125] = Ok [KName [97; 65]].
 Proof. split; vm_compute; reflexivity. Qed.
+
+(* M6 (second review): the fuel the model passes is never what decides an answer, on ARBITRARY inputs -- also for the loops
+   whose exhaustion is an ordinary value (None, Ok None, Ok buf, PErr, the input itself), about which `<> Err EFuel` says
+   nothing: any fuel above the one the model passes gives the same answer (FuelIndep.v) *)
+From JB Require FuelIndep.
+Theorem C16_fuel_is_never_decisive :
+  (forall stop k bs acc esc, (length bs < k)%nat -> PathParse.scan_name k stop bs acc esc = PathParse.scan_name (S (length bs)) stop bs acc esc) /\
+  (forall A (f : list N -> PathParse.pres A), (forall bs, PathParseFuel.le_res (length bs) (f bs)) -> forall sep, (forall bs, PathParseFuel.le_res (length bs) (sep bs)) -> forall k bs acc, (length bs < k)%nat -> PathParse.sep_loop f sep k bs acc = PathParse.sep_loop f sep (S (length bs)) bs acc).
+Proof. split; [exact FuelIndep.scan_name_any_fuel|exact (@FuelIndep.sep_loop_any_fuel)]. Qed.
+Print Assumptions C16_fuel_is_never_decisive.
+
+(* L2/L3 (second review), the DOMAIN of indices: the theorems of this file quantify over key paths whose indices are arbitrary
+   integers (KIndex z, z : Z) and hold for all of them; KeyPath::Index holds an i32 in the code, and the parser only produces
+   such indices (the bound is sharp: PathI32.parsed_i32_examples) *)
+From JB Require PathI32.
+Theorem C16_parsed_indices_are_i32 : forall bs ks, PathParse.parse_key_paths bs = Ok ks -> Forall PathI32.kp_in_i32 ks.
+Proof. exact PathI32.parsed_key_path_indices_are_i32. Qed.
+Print Assumptions C16_parsed_indices_are_i32.
